@@ -22,7 +22,7 @@ fn format_args_of(b: &syn::Block) -> Vec<(String, usize)> {
 
 pub fn run(m: &Model, ctx: &mut Ctx) {
     ctx.explanation = "C17.same: the line, column and file printed by Display, marked by contextualize() and stored in ReportData are the same access paths with no arithmetic in between (sibling normal forms). \
-C17.book: line/column/offset are written only by Input's constructors (1, 1, 0) and by Input::slice; in slice the new line is the old line plus the number of line breaks in exactly the consumed prefix, the new offset the old offset plus the consumed length, and a zero-length step copies the position; reset_context copies the current line/offset and is applied at the top-level assignment boundaries. \
+C17.book: line/column/offset are written only by Input's constructors (1, 1, 0) and by Input::slice; Input::slice is evaluated abstractly on LF / CRLF / lone-CR texts for every suffix slice `n..` and prefix slice `..n`: the new line is the old line plus the number of '\\n' in exactly the consumed bytes, the new offset the old offset plus the consumed length, a zero-length step copies the position, context start and path are kept; reset_context copies the current line/offset and is applied at the top-level assignment boundaries. \
 C17.path: the source path flows AsnSource::Path -> AsnSourceUnit.path -> Input.src_file -> ReportData.src_file -> both renderings. \
 Not applicable: that the position lies in the first malformed assignment (nom's run-time error selection).".into();
     ctx.assumptions = vec!["nom's Offset::offset gives the byte distance between the two slices".into()];
@@ -107,22 +107,90 @@ Not applicable: that the position lies in the first malformed assignment (nom's 
 
     // ---------------- C17.book ----------------
     if let Some(f) = anchor_fn(m, ctx, "C17.book", Some("Input"), "slice", Some("input")) {
-        let b = tok(&f.block);
-        for (key, needle, msg) in [
-            ("consumed-length", "let consumed_len=self.inner.offset(inner);", "the consumed length must be the distance between the old and the new slice"),
-            ("consumed-prefix", "let consumed=&self.inner[..consumed_len];", "line breaks must be counted over exactly the consumed prefix"),
-            ("line-breaks", "let line_breaks=consumed.match_indices('\\n');", "line breaks are the '\\n' characters of the consumed prefix"),
-            ("line", "let line=self.line+line_breaks.count();", "new line = old line + number of line breaks consumed"),
-            ("offset", "offset:self.offset+consumed_len", "new offset = old offset + consumed length"),
-            ("zero-step", "if consumed_len==0{Input{src_file:self.src_file,line:self.line,column:self.column,offset:self.offset,", "a zero-length step must copy line, column and offset unchanged"),
-            ("context-kept", "context_start_line:self.context_start_line,context_start_offset:self.context_start_offset,", "slicing must not move the context start"),
-            ("path-kept", "src_file:self.src_file,", "slicing must keep the source path"),
-        ] {
-            ctx.oblige("C17.book", key, true);
-            if !b.contains(needle) {
-                ctx.violate("C17.book", &format!("slice:{}", key), &f.file, f.line, msg);
+        // Input::slice is evaluated on texts with LF and CRLF line ends, for every suffix slice `n..` (consuming n bytes)
+        // and every prefix slice `..n` (consuming nothing), from a non-trivial starting position.
+        use crate::eval::{Env, Evaluator, Val};
+        use std::collections::BTreeMap;
+        let consts = const_resolver(m);
+        let lower = std::cell::Cell::new(0usize);
+        let hook = |_: &Evaluator, name: &str, a: &[Val]| -> Option<Result<Val, String>> {
+            match (name, a.first(), a.get(1)) {
+                // nom::Offset for str: distance from the start of `a` to the start of its sub-slice `b`; the sub-slice is
+                // the one the scenario cut out, so the distance is the scenario's lower bound
+                (".offset", Some(Val::Str(_)), Some(Val::Str(_))) => Some(Ok(Val::int(lower.get() as i128))),
+                (".clone", Some(v), None) => Some(Ok(v.clone())),
+                _ => None,
+            }
+        };
+        let ev = Evaluator { consts: &consts, call_hook: &hook, inline: None };
+        let param = f.sig.inputs.iter().filter_map(|a| match a { syn::FnArg::Typed(t) => Some(tok(&t.pat)), _ => None }).next().unwrap_or("range".into());
+        let (l0, c0, o0) = (7i128, 3i128, 100i128);
+        let mk = |text: &str| {
+            let mut fm = BTreeMap::new();
+            fm.insert("inner".to_string(), Val::Str(text.into()));
+            fm.insert("line".to_string(), Val::int(l0));
+            fm.insert("column".to_string(), Val::int(c0));
+            fm.insert("offset".to_string(), Val::int(o0));
+            fm.insert("context_start_line".to_string(), Val::int(5));
+            fm.insert("context_start_offset".to_string(), Val::int(80));
+            fm.insert("src_file".to_string(), Val::some(Val::Str("file.asn".into())));
+            Val::Ctor("Input".into(), vec![], fm)
+        };
+        let get = |v: &Val, k: &str| -> Option<Val> { match v { Val::Ctor(_, _, fm) => fm.get(k).cloned(), _ => None } };
+        let mut n_eval = 0;
+        let mut reported: std::collections::BTreeSet<&str> = std::collections::BTreeSet::new();
+        'texts: for text in ["A ::= B\nC ::= D\n", "x\r\ny\r\n\r\nz", "-- c\r\n\n\nT", "no line break", "\n", "a\rb\nc"] {
+            for n in 0..=text.len() {
+                for suffix in [true, false] {
+                    let range = if suffix { Val::Ctor("$range".into(), vec![Val::int(n as i128), Val::Unit], BTreeMap::new()) } else { Val::Ctor("$range".into(), vec![Val::int(0), Val::int(n as i128)], BTreeMap::new()) };
+                    let mut env = Env::new();
+                    env.insert("self".into(), mk(text));
+                    env.insert(param.clone(), range);
+                    n_eval += 1;
+                    lower.set(if suffix { n } else { 0 });
+                    let r = match ev.eval_fn_body(&f.block, &mut env) {
+                        Ok(r) => r,
+                        Err(e) => {
+                            ctx.fail_closed("C17.book", &format!("[slice {:?} {}{}]: {}", text, if suffix { format!("{}..", n) } else { format!("..{}", n) }, "", e));
+                            break 'texts;
+                        }
+                    };
+                    let consumed = if suffix { n } else { 0 };
+                    let want_line = l0 + text[..consumed].matches('\n').count() as i128;
+                    let want_off = o0 + consumed as i128;
+                    let want_inner = if suffix { &text[n..] } else { &text[..n] };
+                    let what = format!("slice({}) of {:?} at line {}, offset {}", if suffix { format!("{}..", n) } else { format!("..{}", n) }, text, l0, o0);
+                    let mut bad = |key: &'static str, msg: String| {
+                        if reported.insert(key) {
+                            ctx.violate("C17.book", &format!("slice:{}", key), &f.file, f.line, &msg);
+                        }
+                    };
+                    if get(&r, "line") != Some(Val::int(want_line)) {
+                        bad("line-breaks", format!("{}: the new line is {:?}; it must be the old line plus the number of '\\n' in exactly the {} consumed bytes = {} (a CR LF pair is one line break, a lone CR none)", what, get(&r, "line").map(|v| v.show()), consumed, want_line));
+                    }
+                    if get(&r, "offset") != Some(Val::int(want_off)) {
+                        bad("offset", format!("{}: the new offset is {:?}; it must be the old offset plus the consumed length = {}", what, get(&r, "offset").map(|v| v.show()), want_off));
+                    }
+                    if get(&r, "inner") != Some(Val::Str(want_inner.to_string())) {
+                        bad("inner", format!("{}: the remaining text is {:?}, expected {:?}", what, get(&r, "inner").map(|v| v.show()), want_inner));
+                    }
+                    if consumed == 0 && get(&r, "column") != Some(Val::int(c0)) {
+                        bad("zero-step", format!("{}: a zero-length step must copy line, column and offset unchanged (column became {:?})", what, get(&r, "column").map(|v| v.show())));
+                    }
+                    if get(&r, "context_start_line") != Some(Val::int(5)) || get(&r, "context_start_offset") != Some(Val::int(80)) {
+                        bad("context-kept", format!("{}: slicing must not move the context start", what));
+                    }
+                    if get(&r, "src_file") != Some(Val::some(Val::Str("file.asn".into()))) {
+                        bad("path-kept", format!("{}: slicing must keep the source path", what));
+                    }
+                }
             }
         }
+        ctx.oblige_n("C17.book/slice-evaluations", n_eval);
+        for k in ["line-breaks", "offset", "inner", "zero-step", "context-kept", "path-kept"] {
+            ctx.oblige("C17.book", &format!("slice:{}", k), true);
+        }
+        ctx.floor("C17.book/slice-evaluations", n_eval, 100);
     }
     // who may write the position fields: struct literals `Input { .. }` and assignments to .line/.offset/.column
     let mut writers = vec![];
